@@ -27,6 +27,9 @@ def main():
         i = args.index("--also")
         also.append(args[i + 1])
         del args[i:i + 2]
+    confirm_only = "--confirm-only" in args
+    if confirm_only:
+        args.remove("--confirm-only")
     pid, src, name = args[0], args[1], args[2]
     wt = args[3] if len(args) > 3 else f"/tmp/mut/{pid}"
     patch = os.path.join(src, "patch.diff")
@@ -35,7 +38,13 @@ def main():
     def note(k, v):
         meta["ran"].append({k: v})
         print(f"  {k}: {v}", flush=True)
-    # ---- 1. scratch worktree
+    # ---- 1. scratch worktree (may have been done in advance, in parallel for many seeds: --confirm-only writes confirm.json)
+    cj = os.path.join(src, "confirm.json")
+    if os.path.exists(cj) and not confirm_only:
+        meta = json.load(open(cj))
+        ok = meta["confirmed"]
+        print("  (scratch-worktree confirmation taken from confirm.json)", flush=True)
+        return finish(meta, ok, pid, also, src, name, patch, demo)
     sh(["git", "checkout", "--", "."], cwd=wt)
     os.makedirs(os.path.join(wt, "tests"), exist_ok=True)
     shutil.copy(demo, os.path.join(wt, "tests", "demo.rs"))
@@ -60,6 +69,17 @@ def main():
     os.remove(os.path.join(wt, "tests", "demo.rs"))
     sh(["git", "checkout", "--", "."], cwd=wt)
     meta["confirmed"] = ok
+    if confirm_only:
+        json.dump(meta, open(cj, "w"), indent=1)
+        print(f"{name}: confirmed={ok} (scratch only)")
+        return
+    return finish(meta, ok, pid, also, src, name, patch, demo)
+
+
+def finish(meta, ok, pid, also, src, name, patch, demo):
+    def note(k, v):
+        meta["ran"].append({k: v})
+        print(f"  {k}: {v}", flush=True)
     # ---- 2. my checks against /repo with the patch applied
     rc, out = sh(["git", "status", "--porcelain"], cwd="/repo")
     if out.strip():
